@@ -107,7 +107,9 @@ Print Assumptions C03_attr_parse_roundtrip_partial.
    CHARACTER LEVEL (proofs/AttrText*.v).  The written grammar, as data:
      selem  = name + list of parts + optionally a text `{T}` + optionally the self-closing mark `/`;
      part   = `#v` | `.v` (the operator may be repeated: `..v` is a "multiple" mention, looked up as `class*`
-              in markup.attributes) | `[a1 a2 ... an]` (single spaces between);
+              in markup.attributes) | `[ lead a1 w1 a2 w2 ... an wn ]` with any white space lead / wi (blanks,
+              tabs, nbsp, line breaks), at least one character between two attributes; [spaced l] = the
+              usual single spaces;
      sattr  = optional `!` (implied) + name + optional `.` (boolean) + value;
      value  = nothing | `=` | `=v` | `='q'` / `="q"` | `={e}`.
    Alphabets ([selem_ok]): element name and shorthand values are non-empty runs of name characters
@@ -138,7 +140,7 @@ Print Assumptions C03_element_tokens_text.
    component path, so the name must not start with a capital there.)
    Outside the stated grammar, hence not covered by this theorem (covered by the correspondence and the
    oracle of harness/props/c03.py): `$` numbering / `${..}` fields in names and values, a backslash
-   outside quotes and braces, separators other than one space, bare quoted attributes `["x"]`, empty
+   outside quotes and braces, bare quoted attributes `["x"]`, empty
    shorthands (`a.`), the jsx shorthand `.{e}`. *)
 Theorem C03_element_attributes_text :
   forall (jsx : bool) (env : cenv) (max_repeat : option N) (e : selem),
@@ -297,8 +299,8 @@ Example C03_expand_nonvacuous :
                           false None None) in
   let e := mkSElem (S "a")
              [PClass 0 (S "x");
-              PSet [mkSAttr false (S "b") false (SUnq (S "f(1)")); mkSAttr false (S "c") true SNone;
-                    mkSAttr true (S "d") false SNone; mkSAttr false (S "class") false (SQuo true (S "y z"))];
+              PSet [] (spaced [mkSAttr false (S "b") false (SUnq (S "f(1)")); mkSAttr false (S "c") true SNone;
+                    mkSAttr true (S "d") false SNone; mkSAttr false (S "class") false (SQuo true (S "y z"))]);
               PId 0 (S "i")] (Some (S "5 > 3 \{ok\}")) false in
   selem_ok e /\ html_family (mc_syntax (xc_m x)) /\
   Forall (fun a => form_nl_free (attr_out_spec (xc_o x) a)) (merge_spec false [] (written_mentions e)) /\
@@ -306,7 +308,7 @@ Example C03_expand_nonvacuous :
   elem_text e = S "a.x[b=f(1) c. !d class='y z']#i{5 > 3 \{ok\}}" /\
   expand_markup_str x (elem_text e) = Ok (S "<a class=""x y z"" b=""f(1)"" c=""c"" id=""i"">5 > 3 {ok}</a>").
 Proof.
-  cbv zeta. split; [split; [split; [discriminate|repeat constructor]|split; [repeat constructor; try discriminate|reflexivity]]|].
+  cbv zeta. split; [cbn; grammar_ok|].
   split; [repeat split|]. split; [vm_compute; repeat constructor|]. split; [vm_compute; repeat constructor|].
   split; vm_compute; reflexivity.
 Qed.
@@ -315,9 +317,9 @@ Qed.
 Example C03_text_nonvacuous :
   let e := mkSElem (S "a")
              [PId 0 (S "x"); PClass 0 (S "y");
-              PSet [mkSAttr true (S "p") true SNone; mkSAttr false (S "q") false SEmpty;
+              PSet [] (spaced [mkSAttr true (S "p") true SNone; mkSAttr false (S "q") false SEmpty;
                     mkSAttr false (S "r") false (SUnq (S "a*3/4>.#")); mkSAttr false (S "f") false (SUnq (S "g(1)"));
-                    mkSAttr false (S "s") true (SQuo true (S "a \' ] (c)")); mkSAttr false (S "t") false (SBrace (S " x{y} "))];
+                    mkSAttr false (S "s") true (SQuo true (S "a \' ] (c)")); mkSAttr false (S "t") false (SBrace (S " x{y} "))]);
               PClass 1 (S "z")] None false in
   selem_ok e /\ jsx_ok false e /\
   elem_text e = S "a#x.y[!p. q= r=a*3/4>.# f=g(1) s.='a \' ] (c)' t={ x{y} }]..z" /\
@@ -333,20 +335,20 @@ Example C03_text_nonvacuous :
      mkAAttr (Some (S "class")) (Some [VStr (S "z")]) VRaw false false true].
 Proof.
   cbv zeta. split; [|split; [left; reflexivity|split; vm_compute; reflexivity]].
-  split; [split; [discriminate|repeat constructor]|]. split; [|exact I]. repeat constructor; try discriminate.
+  cbn; grammar_ok.
 Qed.
 
 (* ... and of the statement theorem: a.x>b[c=1]{t>u}+d#e/ satisfies its hypothesis *)
 Example C03_statement_nonvacuous :
   let xs := [(mkSElem (S "a") [PClass 0 (S "x")] None false, SChild);
-             (mkSElem (S "b") [PSet [mkSAttr false (S "c") false (SUnq (S "1"))]] (Some (S "t>u")) false, SSibling);
+             (mkSElem (S "b") [PSet [] (spaced [mkSAttr false (S "c") false (SUnq (S "1"))])] (Some (S "t>u")) false, SSibling);
              (mkSElem (S "d") [PId 0 (S "e")] None true, SSibling)] in
   let cfg := mkMConfig (S "html") [(S "a", S "a[href]")] [] WNone None None false None [] false false in
   Forall (fun x => selem_ok (fst x) /\ jsx_ok false (fst x)) xs /\ stmt_text xs = S "a.x>b[c=1]{t>u}+d#e/" /\
   Forall (fun x => plain_name cfg (fst x)) (tl xs).
 Proof.
   cbv zeta. split; [|split; [vm_compute; reflexivity|]].
-  - repeat constructor; try discriminate.
+  - cbn. grammar_ok. all: left; reflexivity.
   - repeat constructor.
 Qed.
 
@@ -390,21 +392,21 @@ Example C03_statement_expand_nonvacuous :
                (mkOconfig (mkOfmt [] [] []) [] [] (S "double") false false [] [] 0 false [] (S "html") [] false [] [] []
                           false None None) in
   let xs := [(mkSElem (S "a") [PClass 0 (S "x")] None false, SChild);
-             (mkSElem (S "b") [PSet [mkSAttr false (S "c") false (SUnq (S "1"))]] (Some (S "t>u")) false, SSibling);
+             (mkSElem (S "b") [PSet [] (spaced [mkSAttr false (S "c") false (SUnq (S "1"))])] (Some (S "t>u")) false, SSibling);
              (mkSElem (S "d") [PId 0 (S "e")] None true, SSibling)] in
   Forall (fun p => selem_ok (fst p) /\ jsx_ok false (fst p) /\ plain_name (xc_m x) (fst p)) xs /\
   Forall (fun p => elem_out_ok (xc_m x) (xc_o x) (fst p)) xs /\
   expand_markup_str x (stmt_text xs) = Ok (S "<a class=""x""><b c=""1"">t>u</b><d id=""e""></a>").
 Proof.
   cbv zeta. split; [|split; [|vm_compute; reflexivity]].
-  - repeat constructor; try discriminate.
+  - cbn. grammar_ok. all: try (left; reflexivity).
   - repeat constructor.
 Qed.
 
 (* non-vacuity of the group corollary: `(a.x>b[c=1])*2+d##e` as tokens satisfies [gflat], so C01_parse_groups applies *)
 Example C03_group_nonvacuous :
   let a := mkSElem (S "a") [PClass 0 (S "x")] None false in
-  let b := mkSElem (S "b") [PSet [mkSAttr false (S "c") false (SUnq (S "1"))]] None false in
+  let b := mkSElem (S "b") [PSet [] (spaced [mkSAttr false (S "c") false (SUnq (S "1"))])] None false in
   let d := mkSElem (S "d") [PId 1 (S "e")] None false in
   let br o p := mkTok (TBracket o BGroup) p (p + 1) in
   let op o p := mkTok (TOperator o) p (p + 1) in
